@@ -16,7 +16,7 @@
    NOT PROVED (correspondence + oracle only): fields, dynamic-length types, explicit or bit
    positions, BYTE-SIZE, length keys (see DESIGN.md, "partial"). *)
 From Coq Require Import ZArith List Bool.
-From OV Require Import Base.Bytes Base.Wire Generated Model.Str Model.Codec Proofs.BytesProofs Proofs.AtomicProofs Proofs.CodecProps Proofs.FlatProofs Proofs.TreeProofs Proofs.TreeWireProofs Proofs.FieldProofs Proofs.DynFieldProofs Proofs.PadProofs Proofs.EopFieldProofs Proofs.BStructProofs Proofs.MuxProofs Proofs.LinearLeafProofs Proofs.ReservedProofs Proofs.BitFieldProofs Proofs.LeafKindsProofs.
+From OV Require Import Base.Bytes Base.Wire Generated Model.Str Model.Codec Proofs.BytesProofs Proofs.AtomicProofs Proofs.CodecProps Proofs.FlatProofs Proofs.TreeProofs Proofs.TreeWireProofs Proofs.FieldProofs Proofs.DynFieldProofs Proofs.PadProofs Proofs.EopFieldProofs Proofs.BStructProofs Proofs.MuxProofs Proofs.MuxSelProofs Proofs.LinearLeafProofs Proofs.ReservedProofs Proofs.BitFieldProofs Proofs.LeafKindsProofs.
 Import ListNotations.
 Open Scope Z_scope.
 
@@ -433,6 +433,118 @@ Example C01_multiplexer_example :
   decode_msg (map m_p (rms (mk c2 in2))) (rbytes (mk c2 in2)) = Ok (VDict (out_dict (rms (mk c2 in2)))).
 Proof. exact mux_example. Qed.
 Print Assumptions C01_multiplexer_example.
+
+(* ---------- multiplexers, every way of selecting a case (Proofs/MuxSelProofs.v) ---------- *)
+(* what the encoder selects for a case specification (content of the case, value of the switch key), and the case
+   the decoder selects for a key; both are the model's own expressions (the unfolding lemmas are proved by reflexivity) *)
+Theorem C01_multiplexer_selection_defs : forall cases dflt spec key,
+  mux_select cases dflt spec =
+    match spec with
+    | VStr nm =>
+      match filter (fun c => bytes_eqb (mc_name c) nm) cases with
+      | [] => match dflt with Some c => Ok (mc_struct c, 0) | None => Err ERej end
+      | [c] => Ok (mc_struct c, mc_lo c)
+      | _ => Err ERej
+      end
+    | VInt n =>
+      match filter (mc_applies n) cases with
+      | [] => match dflt with Some c => Ok (mc_struct c, n) | None => Err ERej end
+      | c :: _ => Ok (mc_struct c, n)
+      end
+    | VNone => match dflt with Some c => Ok (mc_struct c, 0) | None => Err ERej end
+    | _ => Err ERej
+    end /\
+  mux_case_of cases dflt key = match find (mc_applies key) cases with Some c => Some c | None => dflt end.
+Proof. intros. split; reflexivity. Qed.
+Print Assumptions C01_multiplexer_selection_defs.
+
+(* whenever the encoder selects case c with key `key` for the specification and the decoder selects c for that key,
+   the multiplexer is a good member: the key and the content's bytes are written, the case NAME and the content's values
+   are read back (a number or None as specification is not returned: it is the name of the case which comes back) *)
+Theorem C01_multiplexer_selected_member : forall k nm kbl hl cases dflt c spec key rs,
+  0 < kbl <= 64 -> 0 <= key < 2 ^ kbl ->
+  mux_select cases dflt spec = Ok (mc_struct c, key) -> mux_case_of cases dflt key = Some c ->
+  mc_struct c = Some (DStruct (map m_p (rms rs)) None) ->
+  (forall x, In x rs -> rgood k x) -> NoDup (map m_name (rms rs)) ->
+  rgood (4 + k) (mux_sel_rm nm kbl hl cases dflt c spec key rs).
+Proof. exact mux_sel_rgood. Qed.
+Print Assumptions C01_multiplexer_selected_member.
+
+(* a case without content: only the switch key is written, whatever the caller passes as content; the empty dictionary
+   is read back *)
+Theorem C01_multiplexer_empty_case_member : forall nm kbl hl cases dflt c spec cv key,
+  0 < kbl <= 64 -> 0 <= key < 2 ^ kbl ->
+  mux_select cases dflt spec = Ok (mc_struct c, key) -> mux_case_of cases dflt key = Some c ->
+  mc_struct c = None ->
+  rgood 3 (mux_empty_rm nm kbl hl cases dflt c spec cv key).
+Proof. exact mux_empty_rgood. Qed.
+Print Assumptions C01_multiplexer_empty_case_member.
+
+(* the selection hypotheses hold: by number (first case holding it), by a number no case holds or by None or by an
+   unknown name (default case; key 0 must not be claimed by a case), by name (unique, first case for its lower limit) *)
+Theorem C01_multiplexer_selection_by_number : forall cases dflt n c rest,
+  filter (mc_applies n) cases = c :: rest ->
+  mux_select cases dflt (VInt n) = Ok (mc_struct c, n) /\ mux_case_of cases dflt n = Some c.
+Proof. exact select_by_number. Qed.
+Print Assumptions C01_multiplexer_selection_by_number.
+Theorem C01_multiplexer_default_by_number : forall cases c n,
+  filter (mc_applies n) cases = [] ->
+  mux_select cases (Some c) (VInt n) = Ok (mc_struct c, n) /\ mux_case_of cases (Some c) n = Some c.
+Proof. exact select_default_by_number. Qed.
+Print Assumptions C01_multiplexer_default_by_number.
+Theorem C01_multiplexer_default_by_none : forall cases c,
+  filter (mc_applies 0) cases = [] ->
+  mux_select cases (Some c) VNone = Ok (mc_struct c, 0) /\ mux_case_of cases (Some c) 0 = Some c.
+Proof. exact select_default_by_none. Qed.
+Print Assumptions C01_multiplexer_default_by_none.
+Theorem C01_multiplexer_default_by_name : forall cases c nm,
+  filter (fun c' => bytes_eqb (mc_name c') nm) cases = [] -> filter (mc_applies 0) cases = [] ->
+  mux_select cases (Some c) (VStr nm) = Ok (mc_struct c, 0) /\ mux_case_of cases (Some c) 0 = Some c.
+Proof. exact select_default_by_name. Qed.
+Print Assumptions C01_multiplexer_default_by_name.
+Theorem C01_multiplexer_selection_by_name : forall cases dflt c,
+  filter (fun c' => bytes_eqb (mc_name c') (mc_name c)) cases = [c] -> find (mc_applies (mc_lo c)) cases = Some c ->
+  mux_select cases dflt (VStr (mc_name c)) = Ok (mc_struct c, mc_lo c) /\ mux_case_of cases dflt (mc_lo c) = Some c.
+Proof. exact select_by_name. Qed.
+Print Assumptions C01_multiplexer_selection_by_name.
+
+Example C01_multiplexer_selection_example :
+  let u8 nm := mkF nm 8 BUint None true BUint None in
+  let u16 nm := mkF nm 16 BUint None true BUint None in
+  let vv (z : Z) := fun _ : name => VInt z in
+  let in1 := [leaf_rm (u8 [97]) (vv 7) (wire_bytes (u8 [97]) 7)] in
+  let ind := [leaf_rm (u16 [100]) (vv 258) (wire_bytes (u16 [100]) 258)] in
+  let c1 := MC [120] 16 31 (Some (DStruct (map m_p (rms in1)) None)) in
+  let c2 := MC [121] 32 32 None in
+  let cd := MC [122] 0 0 (Some (DStruct (map m_p (rms ind)) None)) in
+  let sid := leaf_rm (mkF [115] 8 BUint None true BUint (Some (VInt 34))) (vv 34) [34] in
+  let tail := leaf_rm (u8 [116]) (vv 9) [9] in
+  let m1 := [sid; mux_sel_rm [109] 8 true [c1; c2] (Some cd) c1 (VInt 20) 20 in1; tail] in
+  let m2 := [sid; mux_empty_rm [109] 8 true [c1; c2] (Some cd) c2 (VStr [121]) (VInt 5) 32; tail] in
+  let m3 := [sid; mux_sel_rm [109] 8 true [c1; c2] (Some cd) cd VNone 0 ind; tail] in
+  let m4 := [sid; mux_sel_rm [109] 8 true [c1; c2] (Some cd) cd (VInt 99) 99 ind; tail] in
+  let ok m := encode_msg (map m_p (rms m)) None (VDict (in_dict (rms m))) = Ok (rbytes m, false) /\
+              decode_msg (map m_p (rms m)) (rbytes m) = Ok (VDict (out_dict (rms m))) in
+  rbytes m1 = [34; 20; 7; 9] /\ rbytes m2 = [34; 32; 9] /\ rbytes m3 = [34; 0; 1; 2; 9] /\ rbytes m4 = [34; 99; 1; 2; 9] /\
+  ok m1 /\ ok m2 /\ ok m3 /\ ok m4.
+Proof. exact mux_sel_example. Qed.
+Print Assumptions C01_multiplexer_selection_example.
+
+Example C01_multiplexer_selection_premises :
+  let u8 nm := mkF nm 8 BUint None true BUint None in
+  let u16 nm := mkF nm 16 BUint None true BUint None in
+  let vv (z : Z) := fun _ : name => VInt z in
+  let in1 := [leaf_rm (u8 [97]) (vv 7) (wire_bytes (u8 [97]) 7)] in
+  let ind := [leaf_rm (u16 [100]) (vv 258) (wire_bytes (u16 [100]) 258)] in
+  let c1 := MC [120] 16 31 (Some (DStruct (map m_p (rms in1)) None)) in
+  let c2 := MC [121] 32 32 None in
+  let cd := MC [122] 0 0 (Some (DStruct (map m_p (rms ind)) None)) in
+  rgood 6 (mux_sel_rm [109] 8 true [c1; c2] (Some cd) c1 (VInt 20) 20 in1) /\
+  rgood 3 (mux_empty_rm [109] 8 true [c1; c2] (Some cd) c2 (VStr [121]) (VInt 5) 32) /\
+  rgood 6 (mux_sel_rm [109] 8 true [c1; c2] (Some cd) cd VNone 0 ind) /\
+  rgood 6 (mux_sel_rm [109] 8 true [c1; c2] (Some cd) cd (VInt 99) 99 ind).
+Proof. exact mux_sel_premises. Qed.
+Print Assumptions C01_multiplexer_selection_premises.
 
 (* ---------- LINEAR computational methods at message level (Proofs/LinearLeafProofs.v) ---------- *)
 (* physical = offset + factor * internal (integer coefficients, any non-zero factor, optional internal limits) on an
